@@ -97,6 +97,114 @@ func (tg socksTarget) matches(target string) (bool, string) {
 	}
 }
 
+// c17Mini is one plain exchange on a connection of its own - the front end
+// serves many connections in one process, before and while the exchange under
+// examination runs.  kind "ok": no authentication, CONNECT to a fixed domain,
+// answered with success.  The other kinds are requests the front end answers
+// with a failure reply itself (BIND, UDP ASSOCIATE, unknown address type,
+// non-zero RSV).  Pauses between its steps come from the tape.
+type c17Mini struct {
+	name         string
+	kind         string
+	target       string
+	hsDone, done bool
+	hsErr        error
+	gotTarget    string
+	gotArgs      int
+	saw          []byte
+	out          []byte
+}
+
+func startC17Mini(c *harness.Ctx, name, kind string, paced bool) *c17Mini {
+	t := c.T
+	m := &c17Mini{name: name, kind: kind, target: "companion-" + name + ".example"}
+	l := c.Net.NewLink(name+".tor", name+".pt")
+	l.B.OnWrite = func(p []byte) { m.out = append(m.out, p...) }
+	pause := func() {
+		if paced {
+			c.S.Sleep([]time.Duration{0, 0, time.Millisecond, 50 * time.Millisecond, 300 * time.Millisecond}[t.Draw(name+".pause", 5)])
+		}
+	}
+	c.S.Go(name+".pt/handshake", func() {
+		defer func() { m.hsDone = true }()
+		req, err := socks5.Handshake(l.B)
+		m.hsErr = err
+		if err == nil {
+			m.gotTarget, m.gotArgs = req.Target, len(req.Args)
+			pause()
+			req.Reply(socks5.ReplySucceeded)
+		}
+	})
+	c.S.Go(name+".tor/client", func() {
+		defer func() { m.done = true }()
+		readN := func(n int) []byte {
+			buf := make([]byte, n)
+			l.A.SetReadDeadline(time.Now().Add(20 * time.Second))
+			k, _ := io.ReadFull(l.A, buf)
+			m.saw = append(m.saw, buf[:k]...)
+			return buf[:k]
+		}
+		pause()
+		if _, err := l.A.Write([]byte{5, 1, 0}); err != nil {
+			return
+		}
+		if r := readN(2); len(r) < 2 || r[1] != 0 {
+			return
+		}
+		pause()
+		req := append([]byte{5, 1, 0, 3, byte(len(m.target))}, m.target...)
+		req = append(req, 0x08, 0xae) // port 2222
+		switch kind {
+		case "bind":
+			req[1] = 2
+		case "udp":
+			req[1] = 3
+		case "unknown-atyp":
+			req[3] = 5
+		case "rsv-nonzero":
+			req[2] = 7
+		}
+		if _, err := l.A.Write(req); err != nil {
+			return
+		}
+		readN(10)
+	})
+	return m
+}
+
+// judge: the exchange's own bytes came back on its own connection.
+func (m *c17Mini) judge(c *harness.Ctx, when string) bool {
+	if !m.hsDone || !m.done {
+		c.Violate("C17/other-connection-stuck", "%s connection %s (%s): Handshake returned=%v, its client finished=%v after a virtual minute; server wrote % x, client saw % x", when, m.name, m.kind, m.hsDone, m.done, m.out, m.saw)
+		return false
+	}
+	if m.kind != "ok" {
+		if m.hsErr == nil {
+			c.Violate("C17/malformed-accepted", "%s connection %s: %s request accepted (target %q)", when, m.name, m.kind, m.gotTarget)
+			return false
+		}
+		// method reply, then nothing or the front end's own failure reply
+		if !(len(m.saw) == 2 || len(m.saw) == 12 && m.saw[2] == 5 && m.saw[3] != 0) {
+			c.Violate("C17/improper-failure-reply", "%s connection %s (%s): client saw % x, expected the method reply and then nothing or a 10-byte failure reply", when, m.name, m.kind, m.saw)
+			return false
+		}
+		return true
+	}
+	if m.hsErr != nil {
+		c.Violate("C17/conforming-rejected", "%s connection %s: a plain conforming exchange failed: %v (server wrote % x)", when, m.name, m.hsErr, m.out)
+		return false
+	}
+	if want := m.target + ":2222"; m.gotTarget != want || m.gotArgs != 0 {
+		c.Violate("C17/target-altered", "%s connection %s asked for %q without arguments; the front end reports %q with %d argument keys", when, m.name, want, m.gotTarget, m.gotArgs)
+		return false
+	}
+	if len(m.saw) != 12 || m.saw[2] != 5 || m.saw[3] != 0 {
+		c.Violate("C17/bad-final-reply", "%s connection %s: client saw % x, expected the method reply and a 10-byte success reply on its own connection", when, m.name, m.saw)
+		return false
+	}
+	return true
+}
+
 func runC17(c *harness.Ctx) {
 	t := c.T
 	link := c.Net.NewLink("tor", "pt")
@@ -297,6 +405,26 @@ func runC17(c *harness.Ctx) {
 			trailer[i] = byte(0xC0 + i)
 		}
 	}
+	// ---- history: connections served before this one, and one served alongside
+	var minis []*c17Mini
+	hist := t.Draw("history", 4)
+	if hist >= 2 {
+		kinds := []string{"ok", "bind", "udp", "unknown-atyp", "rsv-nonzero"}
+		for i, n := 0, 1+t.Draw("history.n", 2); i < n; i++ {
+			m := startC17Mini(c, fmt.Sprintf("h%d", i), kinds[t.Draw("history.kind", len(kinds))], false)
+			c.S.Run(func() bool { return m.hsDone && m.done }, time.Minute)
+			if !m.judge(c, "earlier") {
+				return
+			}
+			c.Feature("history-" + m.kind)
+		}
+	}
+	if hist == 1 || hist == 3 {
+		for i, n := 0, 1+t.Draw("alongside.n", 2); i < n; i++ {
+			minis = append(minis, startC17Mini(c, fmt.Sprintf("a%d", i), "ok", true))
+		}
+		c.Feature("other-connections-alongside")
+	}
 	var req *socks5.Request
 	var hsErr error
 	var hsDone bool
@@ -403,7 +531,19 @@ func runC17(c *harness.Ctx) {
 			}
 		}
 	})
-	c.S.Run(func() bool { return hsDone && clientDone }, time.Minute)
+	c.S.Run(func() bool {
+		for _, m := range minis {
+			if !m.hsDone || !m.done {
+				return false
+			}
+		}
+		return hsDone && clientDone
+	}, time.Minute)
+	for _, m := range minis {
+		if !m.judge(c, "concurrent") {
+			return
+		}
+	}
 	c.Reached, c.Nontrivial = true, c.S.Counters["net.split"]+c.S.Counters["net.coalesce"] > 0 || malformed != ""
 	if !hsDone {
 		c.Violate("C17/handshake-never-returned", "socks5.Handshake still running after a virtual minute (variant %q)", malformed)
